@@ -46,6 +46,7 @@ INPUTS = {
     # what is left behind after a step must not depend on whether anything was printed
     "pr_gas": SEL2 + "USER_PUNCH 1\n -headings prp prphi\n 10 PUNCH PR_P(\"CO2(g)\"), PR_PHI(\"CO2(g)\")\nSOLUTION 1\n Na 1\n Cl 1\n C(4) 1\nEQUILIBRIUM_PHASES 1\n CO2(g) 1.7 10\nEND\n"
               "USE solution 1\nREACTION 1\n NaCl 1\n 1 mmol\nEND\n",
+    "long_punch": SEL2 + "USER_PUNCH 1\n -headings a b c\n 10 PUNCH PAD(\"x\", 3000), PAD(\"y\", 5000), PAD(\"z\", 10000)\nSOLUTION 1\n Na 1\n Cl 1\nEND\n",      # values longer than the 4096-byte formatting buffer
     "advect": SEL2 + "SOLUTION 0\n Na 1\n Cl 1\nSOLUTION 1-3\n K 1\n N(5) 1\nADVECTION\n -cells 3\n -shifts 4\n -punch_frequency 1\n -print_frequency 2\nPRINT\n -selected_output true\nEND\n",
 }
 # run with no database loaded: the call fails at once, but the sinks that are on still get (the same) bytes
